@@ -145,3 +145,28 @@ Ltac gen_sound f :=
          | Hb : mk_or _ = _ |- _ => rewrite Hb; clear Hb
          end;
   try (gen_taut v).
+
+(* ---- the regenerated definition of a rule equals the hand-written model ------------------- *)
+
+Ltac eq_crack :=
+  repeat (cbv beta iota delta [obind omap omap2 oand oor onot oeq one ocond t_arg t_arg1 t_args t_lhs t_rhs
+                       is_not is_conj is_disj is_implies is_equals is_xor is_if nth_pf last_pf len_is];
+          cbn [nth_error List.length Nat.eqb negb andb orb];
+          first
+            [ reflexivity
+            | match goal with |- context [match ?x with _ => _ end] => is_var x; destruct x end
+            | match goal with |- context [List.length ?l] => is_var l; destruct l end
+            | match goal with |- context [pf_eqb ?a ?b] => destruct (pf_eqb a b) eqn:? end ]).
+
+(* what is left are cases in which the two definitions made the same comparison in two forms
+   (t = ~false against the operand of t = false): the recorded outcomes contradict each other *)
+Ltac eq_finish :=
+  try reflexivity; exfalso;
+  repeat match goal with
+         | Hb : pf_eqb ?a ?b = false |- _ =>
+             assert (a <> b) by (let Hc := fresh in intro Hc; apply (proj2 (pf_eqb_eq a b)) in Hc; congruence); clear Hb
+         end;
+  repeat match goal with
+         | Hb : pf_eqb _ _ = true |- _ => apply pf_eqb_eq in Hb
+         end;
+  congruence.
